@@ -17,7 +17,7 @@ def run(tier, seed, verdict):
                         name_pools=[0, 1, 2], stride=1 if quick else 2),
             mr.ModelRun("MC_C02_relink4.cfg", seed + 2, probes=("reopen",), name_pools=[0, 1], stride=2 if quick else 1),
             mr.ModelRun("MC_SimSmall.cfg", seed + 3, probes=("reopen",), name_pools=[0, 1, 2],
-                        simulate="num=%d" % (40 if quick else 400), depth=32),
+                        simulate="num=%d" % (40 if quick else 200), depth=32),
             mr.ModelRun("MC_SimLinks.cfg", seed + 4, probes=("reopen",), name_pools=[0, 2],
                         simulate="num=%d" % (12 if quick else 150), depth=34)]
     level, cov, assumptions = run_property(
@@ -79,7 +79,7 @@ def run(tier, seed, verdict):
     # Binding B (code -> specification): recorded random executions over a larger universe (four targets incl. a data
     # frame, four descriptors, three tokens) validated by TLC against NixDimLinkTrace.tla
     from . import tracedim
-    tinfo = tracedim.run_binding_b(seed, 25 if quick else 400, 60, verdict)
+    tinfo = tracedim.run_binding_b(seed, 25 if quick else 200, 60, verdict)
     cov["binding_b_dimension_links"] = tinfo
     cov["traces_validated_against_impl"] += tinfo["traces"] if tinfo.get("accepted") else 0
     cov["rule"] += "; dimension links (NixDimLink): every history of appending sampled / range / set descriptors, setting "\
